@@ -29,6 +29,7 @@ LEVEL_TEXT = (
     "scans in include and exclude mode with module_path on the shorter of two prefix-sibling directories."
 )
 LEVEL_NOTE = "Metamorphic: only the renaming invariance stated in C14 is assumed. Regex specifications are excluded (renaming changes what they match)."
+LEVEL_TEXT += " In scans the root directory takes part in the renaming (its new name a string prefix of module_path's package) with imports written relative to module_path's parent; adversarial names include non-word identifier characters."
 RULE = "an evaluation = one API call under one renaming; a case = one abstract case under both renamings; non-trivial = the adversarial renaming produced at least one prefix/substring collision among the names the case mentions; distinct = distinct abstract cases"
 ASSUMPTIONS = ["names are legal identifiers (so they can also be scanned from files)"]
 SHARD_TIMEOUT = {"quick": 900, "thorough": 3000}
